@@ -17,7 +17,7 @@ RULE = (
     "nsamps-1, compute_stats, compute_stats_basic}); result compared exactly (integer-valued data) with numpy on "
     "X[start:start+nsamps]; all gulps of one sub-range compared bit-for-bit. Non-trivial = more than one block, or a proper "
     "sub-range, or maxdelay > 0. A scale lane repeats the comparison on one stream of ordinary size (70 001 samples x 32 channels in 5 member files, "
-    "gulps {16384, 4099, 65536, 70001, 7000}, 4 ranges, DMs up to maxdelay 3260 samples)"
+    "gulps {16384, 4099, 65536, 70001, 7000} (statistics also gulp 64 = 1094 blocks), 4 ranges, DMs up to maxdelay 3260 samples)"
 )
 ASSUMPTIONS = [
     "integer-valued labelled data: float32 sums are exact, so equality is bit-exact except for the moments (tolerance 50*eps32*n relative, +1e-3 absolute on skew/kurtosis)",
@@ -57,7 +57,7 @@ def shards(tier: str, seed: int) -> list:
     for nbits in ((8, 32, 2) if tier == "quick" else (8, 32, 4, 2, 1)):
         for api_group in ("reduce", "dedisperse", "stats"):
             out.append({"nbits": nbits, "nchans": SCALE["C"], "N": NS, "lengths": SCALE["lengths"], "start": 0, "dms": SCALE["dms"],
-                        "band": SCALE["band"], "scale": api_group, "gulps": SCALE["gulps"], "ranges": SCALE["ranges"]})
+                        "band": SCALE["band"], "scale": api_group, "gulps": SCALE["gulps"] + ([64] if api_group == "stats" else []), "ranges": SCALE["ranges"]})
     return out
 
 
@@ -66,9 +66,18 @@ def _open(wd, shard, seed):
 
     nbits, C, N = shard["nbits"], shard["nchans"], shard["N"]
     X = fx.label_data(N, C, nbits, seed)
-    if "scale" in shard and nbits >= 8:
-        # values below 100: float32 sums over 70 001 samples stay exact (the quantifier asks for exact sums)
-        X = (fx.label_data(N, C, 8, seed).astype(np.int64) % 100).astype(np.uint8 if nbits == 8 else np.float32)
+    if "scale" in shard:
+        # values below 100: float32 sums over 70 001 samples stay exact (the quantifier asks for exact sums); the extremes of every channel occur
+        # once, early in the stream (samples 5 and 7), so an accumulator that forgets its history cannot recover them later
+        h = fx.label_data(N, C, 8, seed).astype(np.int64)
+        if nbits >= 8:
+            X = (1 + h % 98).astype(np.uint8 if nbits == 8 else np.float32)
+            X[5, :], X[7, :] = 120, 0
+        else:
+            top = (1 << nbits) - 1
+            X = (1 + h % max(1, top - 1)).astype(np.uint8) if nbits > 1 else (h % 2).astype(np.uint8)
+            if nbits > 1:
+                X[5, :], X[7, :] = top, 0
     fch1, foff = shard.get("band", (1500.0, -100.0))
     paths = fx.make_fileset(wd, X, nbits, shard["lengths"], fch1=fch1, foff=foff, tsamp=1e-3)
     return X, paths, FilReader(paths)
